@@ -236,6 +236,13 @@ def run_config(v, ctx, tftpd, thorough, names, cfgname, dist, ow, rng):
                         replay["reply"] = r["reply"]
                     if escapes and r["reply"] != "ERROR":
                         v.violation(f"C03/escaping-name-not-refused/{kind}", f"{cfgname}: {kind} {name!r} resolves to {ref} outside {base} but was answered {r['reply']} (data={r['data']!r:.60})", replay)
+                    if kind == "RRQ" and r["data"] is not None and by_content.get(bytes(r["data"])) is None and not bytes(r["data"]).startswith(b"UPLOAD "):
+                        # unknown content: before judging, ask again alone - a datagram that strayed in from an unrelated
+                        # transfer on this host (another server retransmitting to a re-used port) does not repeat
+                        again = run_batch(srv, [name], kind, f"{cfgname}-{kind}-recheck", patience=2.5)[0]
+                        if again["data"] != r["data"]:
+                            classes["foreign-datagram-ignored"] = classes.get("foreign-datagram-ignored", 0) + 1
+                            r["data"], r["reply"], r["error"] = again["data"], again["reply"], again["error"]
                     if kind == "RRQ" and r["data"] is not None:
                         src_rel = by_content.get(bytes(r["data"]))
                         if src_rel is None:
